@@ -12,8 +12,12 @@ use std::panic::{catch_unwind, AssertUnwindSafe};
 pub fn run_stream(ctx: &mut Ctx, name: &str) {
 	match name {
 		"compact" => compact_stream(ctx),
-		"enc" | "rt" | "mut" | "rand" | "exh" | "cut" | "decall" | "skip" | "count" | "limit" | "mem" | "stacks" | "mel" | "sinks" | "alloc" =>
+		"enc" | "rt" | "mut" | "rand" | "exh" | "cut" | "decall" | "skip" | "count" | "limit" | "mem" | "stacks" | "mel" | "sinks" =>
 			catalogue::run_all(ctx, name),
+		"alloc" => {
+			catalogue::run_all(ctx, name);
+			alloc_big_elems(ctx);
+		},
 		"wrapops" => wrapops_stream(ctx),
 		"len" => len_stream(ctx),
 		"concat" => {
@@ -29,6 +33,7 @@ pub fn run_stream(ctx: &mut Ctx, name: &str) {
 		"like" => crate::like::like_stream(ctx),
 		"bulk" => bulk_stream(ctx),
 		"dvl" => dvl_stream(ctx),
+		"userext" => crate::userext::userext_stream(ctx),
 		"append" => crate::append::append_stream(ctx),
 		"utf8" => utf8_stream(ctx),
 		other => panic!("unknown stream {}", other),
@@ -81,6 +86,35 @@ macro_rules! compact_fns {
 				Err(_) => "panic".into(),
 			};
 			ctx.emit(stream, concat!("Compact<u", stringify!($w), "B>"), &format!("cdec {} {}", $w, hex_or_dash(bs)), &ans);
+			// oracle (C04/C08): the same answer from inputs that cannot report their remaining length
+			let r2 = catch_unwind(|| {
+				let mut u = UnknownLenInput { data: bs, pos: 0 };
+				let r = <Compact<$t>>::decode(&mut u);
+				(r.map(|c| c.0), bs.len() - u.pos)
+			});
+			let ans2 = match r2 {
+				Ok((Ok(x), rem)) => format!("ok {} {}", x, rem),
+				Ok((Err(_), _)) => "err".into(),
+				Err(_) => "panic".into(),
+			};
+			#[cfg(feature = "codec-std")]
+			let ans3 = {
+				let r3 = catch_unwind(|| {
+					let mut io = parity_scale_codec::IoReader(std::io::Cursor::new(bs));
+					let r = <Compact<$t>>::decode(&mut io);
+					(r.map(|c| c.0), bs.len() - io.0.position() as usize)
+				});
+				match r3 {
+					Ok((Ok(x), rem)) => format!("ok {} {}", x, rem),
+					Ok((Err(_), _)) => "err".into(),
+					Err(_) => "panic".into(),
+				}
+			};
+			#[cfg(not(feature = "codec-std"))]
+			let ans3 = ans2.clone();
+			if ans2 != ans || ans3 != ans {
+				ctx.oracle_fail("C04", format!("Compact<u{}> on {}: a slice gives `{}`, an unknown-length input `{}`, IoReader `{}`", $w * 8, hex(bs), ans, ans2, ans3));
+			}
 		}
 	};
 }
@@ -469,6 +503,29 @@ pub fn run_type<T: Cat + DecodeAll + DecodeLimit>(ctx: &mut Ctx, stream: &str, n
 					},
 					None => ctx.oracle_fail("C02", format!("{}: decode(encode(v)) failed: v={} enc={}", name, val_string(&v, true), hex_or_dash(&bs))),
 				}
+				// ... and from every other kind of input (C02 is not about slices)
+				let want = val_string(&v, true);
+				let others: Vec<(&str, Option<(String, usize)>)> = vec![
+					("an unknown-length input", {
+						let mut u = UnknownLenInput { data: &bs, pos: 0 };
+						catch_unwind(AssertUnwindSafe(|| T::decode(&mut u).ok().map(|d| val_string(&d, true)))).ok().flatten().map(|d| (d, bs.len() - u.pos))
+					}),
+					#[cfg(feature = "codec-std")]
+					("IoReader", {
+						let mut io = parity_scale_codec::IoReader(std::io::Cursor::new(&bs[..]));
+						catch_unwind(AssertUnwindSafe(|| T::decode(&mut io).ok().map(|d| val_string(&d, true)))).ok().flatten().map(|d| (d, bs.len() - io.0.position() as usize))
+					}),
+					#[cfg(feature = "bytes-f")]
+					("decode_from_bytes", {
+						let shared = bytes::Bytes::copy_from_slice(&bs);
+						catch_unwind(AssertUnwindSafe(|| parity_scale_codec::decode_from_bytes::<T>(shared).ok().map(|d| val_string(&d, true)))).ok().flatten().map(|d| (d, suffix))
+					}),
+				];
+				for (kind, got) in others {
+					if got != Some((want.clone(), suffix)) {
+						ctx.oracle_fail("C02", format!("{}: decode(encode(v)) through {} gives {:?}: v={} enc={}", name, kind, got.map(|g| (g.0.chars().take(80).collect::<String>(), g.1)), want.chars().take(120).collect::<String>(), hex_or_dash(&bs[..bs.len().min(64)])));
+					}
+				}
 			}
 		},
 		"mut" => {
@@ -482,6 +539,26 @@ pub fn run_type<T: Cat + DecodeAll + DecodeLimit>(ctx: &mut Ctx, stream: &str, n
 				ctx.emit("mut", name, &format!("dec {} {}", T::ty(m.len() + 1), hex_or_dash(&m)), &ans);
 				if ans == "err" {
 					decpos_emit::<T>(ctx, "mut-pos", name, &m);
+				}
+				// oracle (C03/C08): a reader that is interrupted between deliveries (`ErrorKind::Interrupted`)
+				// still delivers these bytes; what is accepted does not depend on it
+				#[cfg(feature = "codec-std")]
+				{
+					let r = catch_unwind(AssertUnwindSafe(|| {
+						let mut io = parity_scale_codec::IoReader(InterruptedRd { data: &m, pos: 0, calls: 0 });
+						let r = T::decode(&mut io);
+						r.ok().map(|v| format!("ok {} {}", val_string(&v, true), m.len() - io.0.pos))
+					}));
+					let via = match r {
+						Ok(Some(s)) => s,
+						Ok(None) => "err".into(),
+						Err(_) => "panic".into(),
+					};
+					if via != ans {
+						let msg = format!("{}: through an IoReader whose reader is interrupted between deliveries: `{}`, from the slice `{}`, on {}", name, &via[..via.len().min(60)], &ans[..ans.len().min(60)], hex_or_dash(&m[..m.len().min(48)]));
+						ctx.oracle_fail("C03", msg.clone());
+						ctx.oracle_fail("C08", msg);
+					}
 				}
 			}
 		},
@@ -726,6 +803,64 @@ pub fn run_type<T: Cat + DecodeAll + DecodeLimit>(ctx: &mut Ctx, stream: &str, n
 					Err(_) => "panic".into(),
 				};
 				ctx.emit("count", name, &format!("count {} {}", T::ty(bs.len() + 1), hex_or_dash(&bs)), &ans);
+				// the same through an input that is not a slice, decoding and SKIPPING: the count is what
+				// that input has delivered, after success and after failure (C19)
+				for skip in [false, true] {
+					let r = catch_unwind(AssertUnwindSafe(|| {
+						let mut u = UnknownLenInput { data: &bs, pos: 0 };
+						let mut ci = CountedInput::new(&mut u);
+						let ok = if skip { T::skip(&mut ci).is_ok() } else { T::decode(&mut ci).is_ok() };
+						let c = ci.count();
+						(ok, u.pos, c)
+					}));
+					match r {
+						Ok((ok, delivered, c)) => {
+							if c != delivered as u64 {
+								ctx.oracle_fail("C19", format!("{}: {} through CountedInput over an unknown-length input: count() = {} but {} bytes were delivered (ok = {}, input {})", name, if skip { "skip" } else { "decode" }, c, delivered, ok, &hex_or_dash(&bs)[..hex_or_dash(&bs).len().min(64)]));
+							}
+						},
+						Err(_) => ctx.oracle_fail("C03", format!("{}: {} through CountedInput over an unknown-length input panicked", name, if skip { "skip" } else { "decode" })),
+					}
+				}
+			}
+			// long arrays of fixed-size elements cut anywhere (their `skip` steps over the elements
+			// without decoding them), through a counting input over a non-slice
+			if name == "u32" {
+				macro_rules! arr_case { ($a:ty, $len:expr) => {{
+					let full: Vec<u8> = (0..$len).map(|i: usize| (i * 7 % 256) as u8).collect();
+					for cut in [0usize, 1, 255, 256, 257, 300, 511, 512, 513, 1000, $len - 1, $len] {
+						let cut = cut.min($len);
+						let r = catch_unwind(AssertUnwindSafe(|| {
+							let mut u = UnknownLenInput { data: &full[..cut], pos: 0 };
+							let mut ci = CountedInput::new(&mut u);
+							let ok = <$a>::skip(&mut ci).is_ok();
+							let c = ci.count();
+							let mut c2 = 0;
+							if !ok {
+								// the session goes on: two more single bytes, if any are left
+								let mut one = [0u8; 1];
+								let _ = ci.read(&mut one);
+								let _ = ci.read(&mut one);
+								c2 = ci.count();
+							}
+							(ok, c, c2, u.pos)
+						}));
+						match r {
+							Ok((ok, c, c2, delivered)) => {
+								let bad = if ok { c != delivered as u64 || cut != $len } else { c2 != delivered as u64 || c > c2 };
+								if bad {
+									ctx.oracle_fail("C19", format!("{}::skip through CountedInput over an unknown-length input holding {} of {} bytes: ok = {}, count() = {} (then {}), delivered {}", stringify!($a), cut, $len, ok, c, c2, delivered));
+								}
+							},
+							Err(_) => ctx.oracle_fail("C03", format!("{}::skip through CountedInput panicked", stringify!($a))),
+						}
+					}
+				}}; }
+				arr_case!([u32; 300], 1200usize);
+				arr_case!([u16; 200], 400usize);
+				arr_case!([[u64; 4]; 20], 640usize);
+				arr_case!([bool; 600], 600usize);
+				arr_case!([u8; 700], 700usize);
 			}
 		},
 		"limit" => {
@@ -954,6 +1089,8 @@ fn big_for<T: Cat + Clone, C: Cat + FromIterator<T>>(ctx: &mut Ctx, name: &str) 
 					ctx.oracle_fail("C08", msg.clone());
 					ctx.oracle_fail("C02", msg.clone());
 					ctx.oracle_fail("C03", msg.clone());
+					// (for the twelve primitives this is the bulk reader disagreeing with element-by-element decoding)
+					ctx.oracle_fail("C07", msg.clone());
 					ctx.oracle_fail("C14", msg);
 				},
 				Err(_) => ctx.oracle_fail("C03", format!("{}: decoding {} elements from an input of unknown length panicked", name, n)),
@@ -974,6 +1111,7 @@ fn big_for<T: Cat + Clone, C: Cat + FromIterator<T>>(ctx: &mut Ctx, name: &str) 
 						ctx.oracle_fail("C08", msg.clone());
 						ctx.oracle_fail("C02", msg.clone());
 						ctx.oracle_fail("C03", msg.clone());
+						ctx.oracle_fail("C07", msg.clone());
 						ctx.oracle_fail("C14", msg);
 					},
 					Err(_) => ctx.oracle_fail("C03", format!("{}: decoding {} elements from IoReader panicked", name, n)),
@@ -1091,6 +1229,11 @@ fn big_stream(ctx: &mut Ctx) {
 	big_for::<(u8, u16), Vec<(u8, u16)>>(ctx, "Vec<(u8,u16)>");
 	big_for::<Option<u32>, Vec<Option<u32>>>(ctx, "Vec<Option<u32>>");
 	big_for::<(), Vec<()>>(ctx, "Vec<()>");
+	// element sizes that do not divide the 16 KiB chunk (3, 24 and 12 bytes in memory)
+	big_for::<[u8; 3], Vec<[u8; 3]>>(ctx, "Vec<[u8;3]>");
+	big_for::<String, Vec<String>>(ctx, "Vec<String>");
+	big_for::<(u32, u32, u16), Vec<(u32, u32, u16)>>(ctx, "Vec<(u32,u32,u16)>");
+	big_for::<[u8; 3], VecDeque<[u8; 3]>>(ctx, "VecDeque<[u8;3]>");
 	big_for::<u8, VecDeque<u8>>(ctx, "VecDeque<u8>");
 	big_for::<u64, VecDeque<u64>>(ctx, "VecDeque<u64>");
 	big_for::<TwinU32, VecDeque<TwinU32>>(ctx, "VecDeque<TwinU32>");
@@ -1136,6 +1279,21 @@ fn big_stream(ctx: &mut Ctx) {
 				let r = catch_unwind(AssertUnwindSafe(|| BitVec::<$store, $order>::decode(&mut &ok[..]).map(|b| b.len())));
 				if !matches!(r, Ok(Ok(n)) if n == max_bits as usize) {
 					ctx.oracle_fail("C03", format!("BitVec<{}> rejected a well-formed bit sequence of 2^29 - 1 bits", $label));
+				}
+				// `skip` decides like `decode` (C18) - also here, where only the cap separates them; and
+				// through an unknown-length input
+				let r = catch_unwind(AssertUnwindSafe(|| {
+					let mut s = &bs[..];
+					let a = BitVec::<$store, $order>::skip(&mut s).is_ok();
+					let mut u = UnknownLenInput { data: &bs, pos: 0 };
+					let b = BitVec::<$store, $order>::skip(&mut u).is_ok();
+					let c = BitBox::<$store, $order>::skip(&mut &bs[..]).is_ok();
+					let mut s2 = &ok[..];
+					let d = BitVec::<$store, $order>::skip(&mut s2).is_ok() && s2.is_empty();
+					(a, b, c, d)
+				}));
+				if !matches!(r, Ok((false, false, false, true))) {
+					ctx.oracle_fail("C18", format!("BitVec<{}>::skip at the bit-length cap (2^29 bits over a slice, over an unknown-length input, BitBox; 2^29 - 1 bits) gives {:?} where decode gives (rejected, rejected, rejected, accepted)", $label, r.ok()));
 				}
 				ctx.count("big:bit-cap-cases", 2);
 			}};
@@ -1315,6 +1473,25 @@ fn big_stream(ctx: &mut Ctx) {
 				bad[k] = b'a';
 				let (ans, _) = dec_answer::<String>(&bad);
 				ctx.emit("big-rt", "String", &format!("dec str {}", hex_or_dash(&bad)), &ans);
+			}
+		}
+	}
+	// long payloads (more than one chunk) that are valid UTF-8 except for their END: an incomplete
+	// 2-, 3- or 4-byte character, a stray continuation byte, a complete character (accepted)
+	for total in [16385usize, 16386, 16388, 32769, 40000] {
+		for tail in [&[0xc3u8][..], &[0xe2, 0x82], &[0xe2], &[0xf0, 0x9d, 0x84], &[0xf0, 0x9d], &[0xf0], &[0x80], &[0xc3, 0xa9], &[0xe2, 0x82, 0xac], &[0xed, 0xa0, 0x80]] {
+			let mut payload = vec![b'a'; total - tail.len()];
+			payload.extend_from_slice(tail);
+			let mut bs = Compact(payload.len() as u32).encode();
+			bs.extend_from_slice(&payload);
+			let (ans, dv) = dec_answer::<String>(&bs);
+			ctx.emit("big-rt", "String", &format!("dec str {}", hex_or_dash(&bs)), &ans);
+			// oracle (C03): accepted iff the payload is UTF-8 - also from inputs of unknown length
+			let valid = core::str::from_utf8(&payload).is_ok();
+			let mut u = UnknownLenInput { data: &bs, pos: 0 };
+			let via_unknown = String::decode(&mut u).is_ok();
+			if dv.is_some() != valid || via_unknown != valid {
+				ctx.oracle_fail("C03", format!("a {}-byte string payload ending in {} is {} UTF-8 but decoding from a slice says {} and from an unknown-length input {}", total, hex_or_dash(tail), if valid { "valid" } else { "not" }, dv.is_some(), via_unknown));
 			}
 		}
 	}
@@ -2400,7 +2577,28 @@ const SLACK: usize = 8 * 1024;
 
 /// Derived catalogue types that hold an `Rc`/`Arc`/tree/shared buffer in a field (their descriptor
 /// says `box`/`tuple` only): compared by the bounds, not request by request.
-const REQS_INEXACT: [&str; 0] = [];
+const REQS_INEXACT: [&str; 2] = ["UNode", "SharedNode"];
+
+/// A reader that reports `ErrorKind::Interrupted` on every other call and delivers 1..=2 bytes otherwise.
+#[cfg(feature = "codec-std")]
+pub struct InterruptedRd<'a> {
+	pub data: &'a [u8],
+	pub pos: usize,
+	pub calls: usize,
+}
+#[cfg(feature = "codec-std")]
+impl std::io::Read for InterruptedRd<'_> {
+	fn read(&mut self, buf: &mut [u8]) -> std::io::Result<usize> {
+		self.calls += 1;
+		if self.calls % 2 == 1 {
+			return Err(std::io::Error::new(std::io::ErrorKind::Interrupted, "signal"));
+		}
+		let n = (1 + self.calls / 2 % 2).min(buf.len()).min(self.data.len() - self.pos);
+		buf[..n].copy_from_slice(&self.data[self.pos..self.pos + n]);
+		self.pos += n;
+		Ok(n)
+	}
+}
 
 struct UnknownLenInput<'a> {
 	data: &'a [u8],
@@ -2603,6 +2801,38 @@ fn alloc_type<T: Cat>(ctx: &mut Ctx, name: &str, o: &TypeOpts, g: &mut G) {
 		// and the untampered encoding: memory proportional to a valid input
 		alloc_case::<T>(ctx, name, &enc, 8);
 	}
+}
+
+/// Vectors whose elements are so large that only one (or two, or exactly N) fit into a
+/// preallocation chunk: hostile counts with no, little and plenty of data behind them.
+fn alloc_big_for<T: Cat>(ctx: &mut Ctx, name: &str) {
+	let mut g = G::new(ctx.seed ^ 0xB1E, 2);
+	for n in 0..3usize {
+		g.budget = 2;
+		let _ = n;
+		let v = T::gen(&mut g);
+		alloc_case::<T>(ctx, name, &v.encode(), 8);
+	}
+	for c in [2u32, 3, 9, 1 << 16, 1 << 24, (1 << 30) - 1, u32::MAX] {
+		for extra in [0usize, 5, 3000, 20000] {
+			let mut bs = parity_scale_codec::Compact(c).encode();
+			bs.extend((0..extra).map(|i| (i % 251) as u8));
+			alloc_case::<T>(ctx, name, &bs, 8);
+		}
+	}
+}
+
+fn alloc_big_elems(ctx: &mut Ctx) {
+	use std::collections::VecDeque;
+	alloc_big_for::<Vec<[u64; 1024]>>(ctx, "Vec<[u64;1024]>");
+	alloc_big_for::<Vec<[u64; 1025]>>(ctx, "Vec<[u64;1025]>");
+	alloc_big_for::<Vec<[u64; 1500]>>(ctx, "Vec<[u64;1500]>");
+	alloc_big_for::<Vec<[u8; 16384]>>(ctx, "Vec<[u8;16384]>");
+	alloc_big_for::<Vec<[u8; 8193]>>(ctx, "Vec<[u8;8193]>");
+	alloc_big_for::<Vec<[u16; 4096]>>(ctx, "Vec<[u16;4096]>");
+	alloc_big_for::<VecDeque<[u32; 3000]>>(ctx, "VecDeque<[u32;3000]>");
+	alloc_big_for::<(u8, Vec<[u64; 2047]>)>(ctx, "(u8,Vec<[u64;2047]>)");
+	alloc_big_for::<Vec<Vec<[u64; 1100]>>>(ctx, "Vec<Vec<[u64;1100]>>");
 }
 
 /// Finding F4 (known): element types with an empty encoding but a non-empty footprint.
